@@ -11,7 +11,9 @@ UNITS = {
     "c15_eni": dict(pkg="./pkg/eni", tags="default_build"),
     # unshare: gcPods / ruleSync talk netlink; ruleSync cases additionally create their own netns
     "c15_daemon": dict(pkg="./daemon", tags="default_build", unshare=True),
-    "c15_webhook": dict(pkg="./pkg/controller/webhook", tags="default_build"),
+    # unshare: should a document without regionID slip past the harness' screen, the ECS
+    # metadata lookup fails at once in an empty network namespace instead of timing out
+    "c15_webhook": dict(pkg="./pkg/controller/webhook", tags="default_build", unshare=True),
     "c15_podctl": dict(pkg="./pkg/controller/pod", tags="default_build"),
     "c15_status": dict(pkg="./pkg/controller/status", tags="default_build"),
     "c15_podeni": dict(pkg="./pkg/controller/pod-eni", tags="default_build"),
@@ -20,15 +22,15 @@ UNITS = {
 PROPS = {
     "C15": dict(
         level="exploration",
-        technique="property-based testing (rapid) plus, in the thorough tier, native coverage-guided go fuzzing: per user-writable field three input generators mixed 1:1:1 (structured-valid / structured-valid with one mutation / raw byte strings) fed to the real parser and to the code that consumes its result; the CNI plugin target continues from parseSetupConf into the IPVlan host-stack redirect (setupFilters/dstIPRule on `lo` in a private netns) with host_stack_cidrs in dotted, IPv6 and IPv4-mapped notation; a panic is the only failure, except the bandwidth sentence, checked against its own arithmetic (accepted with/without unit, aliases equal, x1024 per unit step within integer truncation, monotone in n)",
-        rule="per entry point, inputs drawn 1:1:1 from valid-by-construction, valid with exactly one mutation (type swap, truncation, huge number, unicode, empty, null, renamed/duplicated key, mutation inside an embedded JSON string) and raw byte strings (random bytes / strings over the field's alphabet / hostile constants); CNI configurations are IPVlan configurations with 1..3 host_stack_cidrs entries (IPv4-mapped IPv6 prefixes 96..128 over-represented) in one case of three; non-trivial = the input got past the first validation step of its parser (decoded as JSON / numeric prefix parsed / annotation present / address parsed; see depth labels); distinct = distinct scenario hash",
+        technique="property-based testing (rapid) plus, in the thorough tier, native coverage-guided go fuzzing: per user-writable field three input generators mixed 1:1:1 (structured-valid / structured-valid with one mutation / raw byte strings) fed to the real parser and to the code that consumes its result; the CNI plugin target continues from parseSetupConf into the IPVlan host-stack redirect (setupFilters/dstIPRule on `lo` in a private netns) with host_stack_cidrs in dotted, IPv6 and IPv4-mapped notation; configurations of the terway-controlplane ConfigMap that the real ParseAndValidate accepts are installed in the real MutatingHook and pods are admitted through its handler; a panic is the only failure, except the bandwidth sentence, checked against its own arithmetic (accepted with/without unit, aliases equal, x1024 per unit step within integer truncation, monotone in n)",
+        rule="per entry point, inputs drawn 1:1:1 from valid-by-construction, valid with exactly one mutation (type swap, truncation, huge number, unicode, empty, null, renamed/duplicated key, mutation inside an embedded JSON string) and raw byte strings (random bytes / strings over the field's alphabet / hostile constants); CNI configurations are IPVlan configurations with 1..3 host_stack_cidrs entries (IPv4-mapped IPv6 prefixes 96..128 over-represented) in one case of three; ctrl-config documents carry every optional key absent / set / explicitly null (enableTrunk and enableWebhookInjectResource over all 4x4 combinations), as JSON or block YAML; non-trivial = the input got past the first validation step of its parser (decoded as JSON / numeric prefix parsed / annotation present / address parsed; see depth labels); distinct = distinct scenario hash",
         assumptions=[
             "daemon mode (ENIMultiIP/ENIOnly) and the reply's IP type are restricted to the values the daemon itself produces (convertPod and getDatePath panic by design on others)",
             "the daemon's reply reaches the plugin as gRPC messages: absent sub-messages are nil, repeated fields never hold nil",
             "stored records are decoded as InitResourceDB's deserialiser does (json.Unmarshal into daemon.PodResources; the closure itself is bound to a fixed path and is mirrored)",
         ],
         level_text="generated inputs for 15 parser/consumer entry points of the daemon, controllers, webhook, CNI plugin and terway-cli, with per-entry depth histograms; exploration, not proof; the thorough tier adds 8 native coverage-guided fuzz targets (30 s each) over the same oracles",
-        level_note="parseSetupConf is only given ENI MACs that are empty (a MAC that does not resolve makes it wait 10 s); storeRuntimeConfig is only called on chains without cilium-cni (it would run nsenter/mount on the host); processInput's kernel/bpftool probes, InitResourceDB's closure and getENIConfig of terway-cli are mirrored (<= 5 lines each); controller-runtime recovers panics of webhook handlers and reconcilers by default, the harness calls podWebhook / podNetworkingWebhook / podNumaHints directly and is therefore stricter than production; the kernel of this sandbox refuses u32/mirred filters, so the IPVlan host-stack path ends at the first FilterAdd (rule computation, FilterList and matching are executed), and it is only judged for replies that carry an IPv4 service CIDR (the daemon always sends one); not reached: daemon AllocIP with stored records (needs a running pool, see C04/C05), plugin datapath set-up after parsing (C13), k8s.serviceCidrFromAPIServer / GetDynamicConfigWithName, Windows code",
+        level_note="parseSetupConf is only given ENI MACs that are empty (a MAC that does not resolve makes it wait 10 s); storeRuntimeConfig is only called on chains without cilium-cni (it would run nsenter/mount on the host); processInput's kernel/bpftool probes, InitResourceDB's closure and getENIConfig of terway-cli are mirrored (<= 5 lines each); controller-runtime recovers panics of webhook handlers and reconcilers by default, the harness calls podWebhook / podNetworkingWebhook / podNumaHints directly and is therefore stricter than production; the kernel of this sandbox refuses u32/mirred filters, so the IPVlan host-stack path ends at the first FilterAdd (rule computation, FilterList and matching are executed), and it is only judged for replies that carry an IPv4 service CIDR (the daemon always sends one); ctrl-config documents without a regionID are recognised and not driven (ParseAndValidate would query the ECS metadata service); the constructors of the pod / PodENI controllers, which dereference the published configuration, are mirrored by the same expression, not run; not reached: daemon AllocIP with stored records (needs a running pool, see C04/C05), plugin datapath set-up after parsing (C13), k8s.serviceCidrFromAPIServer / GetDynamicConfigWithName, Windows code",
         tests=[
             dict(unit="c15_k8s", test="TestVerifC15Bandwidth", quick=30000, thorough=3000000),
             dict(unit="c15_k8s", test="TestVerifC15BandwidthScale", quick=10000, thorough=1000000),
@@ -52,6 +54,7 @@ PROPS = {
             # one fresh network namespace per case (slow, serialised in the kernel): few cases
             dict(unit="c15_daemon", test="TestVerifC15RuleSync", quick=640, thorough=8000),
             dict(unit="c15_webhook", test="TestVerifC15Webhook", quick=8000, thorough=200000),
+            dict(unit="c15_webhook", test="TestVerifC15ControlplaneConfig", quick=6000, thorough=300000),
             dict(unit="c15_podctl", test="TestVerifC15PodController", quick=8000, thorough=300000),
             # thorough tier only: native coverage-guided fuzzing of the same oracles (8 x 30 s)
             dict(unit="c15_k8s", fuzz="FuzzVerifC15Bandwidth", seconds=30),
@@ -62,6 +65,7 @@ PROPS = {
             dict(unit="c15_eni", fuzz="FuzzVerifC15LocalLoad", seconds=30),
             dict(unit="c15_plugin", fuzz="FuzzVerifC15CNIConf", seconds=30),
             dict(unit="c15_podeni", fuzz="FuzzVerifC15NumaHints", seconds=30),
+            dict(unit="c15_webhook", fuzz="FuzzVerifC15ControlplaneConfig", seconds=20),
         ],
     ),
 }
